@@ -31,6 +31,13 @@ theorem range_split {a n : Nat} {pref suff : List Nat} {cur : Nat}
   have := range'_split h
   refine ⟨this.1, ?_, ?_, this.2.2⟩ <;> omega
 
+/-- an invariant over the consumed prefix, as a statement about indices -/
+theorem pref_inv {P : Nat → Prop} {pref : List Nat} {a : Nat}
+    (hp : pref = List.range' a pref.length) (h : ∀ j ∈ pref, P j) :
+    ∀ j, a ≤ j → j < a + pref.length → P j := by
+  intro j h1 h2
+  apply h; rw [hp]; simp [List.mem_range'_1]; omega
+
 theorem mem_range_toList {a n j : Nat} : j ∈ [a:n].toList ↔ a ≤ j ∧ j < n := by
   rw [range_toList]; simp [List.mem_range'_1]; omega
 
